@@ -5,6 +5,7 @@ package state
 import (
 	"bytes"
 	"fmt"
+	"os"
 	"sort"
 	"strings"
 	"testing"
@@ -32,6 +33,7 @@ type c14Env struct {
 	snaps  *snapshot.Tree
 	bulkN  int
 	tracer []string
+	hist   []string
 }
 
 func c14Bulk(i int) common.Hash {
@@ -224,6 +226,87 @@ func (e *c14Env) checkCommitted(root common.Hash, accts map[refstate.Addr]*refst
 		}
 		c14CompareSets(rt, fmt.Sprintf("%s: storage iterator of %x", what, a), got, want)
 	}
+}
+
+// c14Held is a state opened right after a commit and not read until later.
+type c14Held struct {
+	sdb       *StateDB
+	accts     map[refstate.Addr]*refstate.Account
+	root      common.Hash
+	block     int
+	flushedAt int
+}
+
+// checkHeld reads everything through a long-held state. Each value must be the
+// model's value at the state's own root unless the state has recorded a database
+// error (stale layer and unreadable trie); it returns whether an error was recorded.
+func (e *c14Env) checkHeld(s *StateDB, h *c14Held, what string) bool {
+	bad := func(format string, a ...any) {
+		if s.Error() == nil {
+			tr := e.hist
+			if len(tr) > 200 {
+				tr = tr[len(tr)-200:]
+			}
+			e.rt.Fatalf("%s opened at block %d root %x (cfg %s), read after later commits: %s and StateDB.Error() is nil\nhistory: %s",
+				what, h.block, h.root, e.cfg, fmt.Sprintf(format, a...), strings.Join(tr, "; "))
+		}
+	}
+	addrs := map[refstate.Addr]bool{}
+	for _, a := range vAddrs {
+		addrs[ra(a)] = true
+	}
+	for a := range h.accts {
+		addrs[a] = true
+	}
+	sorted := make([]refstate.Addr, 0, len(addrs))
+	for a := range addrs {
+		sorted = append(sorted, a)
+	}
+	sort.Slice(sorted, func(i, j int) bool { return bytes.Compare(sorted[i][:], sorted[j][:]) < 0 })
+	m := refstate.FromAccounts(h.accts)
+	for _, ma := range sorted {
+		a := common.Address(ma)
+		// storage first: nothing of this account is cached yet
+		slots := map[refstate.Word]bool{}
+		for _, k := range vSlots {
+			slots[rw(k)] = true
+		}
+		if acc := h.accts[ma]; acc != nil {
+			for k := range acc.Storage {
+				slots[k] = true
+			}
+		}
+		keys := make([]refstate.Word, 0, len(slots))
+		for k := range slots {
+			keys = append(keys, k)
+		}
+		// highest keys first so that slot 0x00..00 is not the first one cached
+		sort.Slice(keys, func(i, j int) bool { return bytes.Compare(keys[i][:], keys[j][:]) > 0 })
+		for _, k := range keys {
+			if g, want := s.GetState(a, common.Hash(k)), m.GetState(ma, k); g != common.Hash(want) {
+				bad("GetState(%x,%x)=%x, value at that root %x", a, k, g, want)
+			}
+			if g, want := s.GetCommittedState(a, common.Hash(k)), m.GetCommittedState(ma, k); g != common.Hash(want) {
+				bad("GetCommittedState(%x,%x)=%x, value at that root %x", a, k, g, want)
+			}
+		}
+		if g, want := s.Exist(a), m.Exist(ma); g != want {
+			bad("Exist(%x)=%v, at that root %v", a, g, want)
+		}
+		if g, want := s.GetBalance(a), m.GetBalance(ma); g.ToBig().Cmp(want) != 0 {
+			bad("GetBalance(%x)=%v, at that root %v", a, g, want)
+		}
+		if g, want := s.GetNonce(a), m.GetNonce(ma); g != want {
+			bad("GetNonce(%x)=%d, at that root %d", a, g, want)
+		}
+		if g, want := s.GetCodeHash(a), m.GetCodeHash(ma); g != common.Hash(want) {
+			bad("GetCodeHash(%x)=%x, at that root %x", a, g, want)
+		}
+		if g, want := s.GetCode(a), m.GetCode(ma); !bytes.Equal(g, want) {
+			bad("GetCode(%x)=%x, at that root %x", a, g, want)
+		}
+	}
+	return s.Error() != nil
 }
 
 func c14SlotSet(st map[refstate.Word]refstate.Word) map[common.Hash][]byte {
@@ -467,6 +550,8 @@ func TestVerifC14Blocks(t *testing.T) {
 			flushed       bool
 			siblings      int
 			lastFlushed   common.Hash // a root that already is the disk layer cannot be flushed again
+			held          []*c14Held
+			nFlush        int
 		)
 		for b := 0; b < nBlocks; b++ {
 			rs := schedule[b]
@@ -480,6 +565,7 @@ func TestVerifC14Blocks(t *testing.T) {
 			w := vNewWorld(rt, rs, sdb, refstate.FromAccounts(accts))
 			w.st = st
 			w.strict = strict
+			w.salt = byte(2 * b)
 			w.mode = rapid.SampledFrom([]int{0, 1, 2, 2}).Draw(rt, "checkMode")
 			w.logf("BLOCK %d rules=%s", b, rs.name)
 			pre := refstate.CopyAccounts(accts)
@@ -495,6 +581,7 @@ func TestVerifC14Blocks(t *testing.T) {
 					w.finalise()
 					w2 := vNewWorld(rt, rs, w.sdb.Copy(), w.m.Copy())
 					w2.st, w2.strict, w2.mode, w2.txN = st, strict, 0, w.txN
+					w2.salt = byte(2*b + 1)
 					w2.trace = append(append([]string{}, w.trace...), "COPY-FORK")
 					w2.destroyed = map[common.Address]bool{}
 					w.beginTx(true)
@@ -562,7 +649,24 @@ func TestVerifC14Blocks(t *testing.T) {
 					}
 				}
 				flushed, lastFlushed = true, newRoot
+				nFlush++
 				e.checkCommitted(newRoot, post, rs, fmt.Sprintf("block %d after flush", b))
+			}
+			// keep some states open (unread) while later blocks are committed and flattened
+			hold := rapid.Bool().Draw(rt, "hold") && len(held) < 3
+			if hold && cfg == "hash+snap" && newRoot != lastFlushed && vs.Known("TestVerifC14Blocks", "held-snapshot-layer-aliased") {
+				// known finding (notes/C14.md): a held middle diff layer of the snapshot tree is
+				// mutated by a later flatten. Excluded by construction: only hold states bound
+				// to the snapshot disk layer (they turn stale properly).
+				hold = false
+				st.Excluded()
+			}
+			if hold {
+				hs, err := New(newRoot, e.db.sdb)
+				if err != nil {
+					w.fail("New(%x) right after its commit: %v", newRoot, err)
+				}
+				held = append(held, &c14Held{sdb: hs, accts: post, root: newRoot, block: b, flushedAt: nFlush})
 			}
 			ntRecreate = ntRecreate || w.destructRecreate
 			for a := range w.destroyed {
@@ -574,10 +678,52 @@ func TestVerifC14Blocks(t *testing.T) {
 				}
 			}
 			trace = append(trace, w.trace...)
+			e.hist = append(e.hist, w.trace...)
+			e.hist = append(e.hist, fmt.Sprintf("COMMIT block %d root %x flushes=%d held=%d", b, newRoot, nFlush, len(held)))
 			root, accts = newRoot, post
+		}
+		// states held open since an earlier block: optionally flatten everything once
+		// more, then read through them (and through a copy): every read is the value
+		// at THEIR root, or the state reports a database error
+		if len(held) > 0 && rapid.Bool().Draw(rt, "finalFlush") && root != types.EmptyRootHash && root != lastFlushed {
+			if err := e.db.tdb.Commit(root, false); err != nil {
+				rt.Fatalf("triedb.Commit(%x): %v", root, err)
+			}
+			if e.snaps != nil {
+				if err := e.snaps.Cap(root, 0); err != nil {
+					rt.Fatalf("snapshot Cap(%x,0): %v", root, err)
+				}
+			}
+			nFlush++
+		}
+		var heldOK, heldErr, heldStale int
+		for _, h := range held {
+			if h.block == nBlocks-1 && h.flushedAt == nFlush {
+				continue // nothing happened since it was opened
+			}
+			if h.flushedAt != nFlush {
+				heldStale++
+			}
+			cp := h.sdb.Copy()
+			for i, s := range []*StateDB{h.sdb, cp} {
+				if e.checkHeld(s, h, []string{"held state", "copy of held state"}[i]) {
+					heldErr++
+				} else {
+					heldOK++
+				}
+			}
 		}
 		nt := ntRecreate || ntCopy
 		c.NonTrivial(nt, cfg+fmt.Sprint(prefetch)+strings.Join(trace, ";"))
+		if heldStale > 0 {
+			c.Class("held-state-read-after-flatten")
+		}
+		if heldOK > 0 {
+			c.Class("held-state-read-ok")
+		}
+		if heldErr > 0 {
+			c.Class("held-state-reported-db-error")
+		}
 		c.Classf("cfg=%s prefetch=%v", cfg, prefetch)
 		c.Classf("blocks=%d", nBlocks)
 		c.Classf("rules(last)=%s", schedule[nBlocks-1].name)
@@ -676,5 +822,47 @@ func TestVerifC14ReturnToDiskRoot(t *testing.T) {
 			}
 			db.Close()
 		}
+	}
+}
+
+// TestVerifC14HeldSnapshotLayer is the minimal history of the suspected defect in
+// core/state/snapshot diffLayer.flatten described in notes/C14.md: a state held open
+// at a middle diff layer silently reads a LATER block's storage value after the
+// snapshot tree was flattened. Report-only unless VERIF_C14_REPRO=held (the
+// randomized check TestVerifC14Blocks finds the same thing by itself).
+func TestVerifC14HeldSnapshotLayer(t *testing.T) {
+	vs.OnlyShard0(t)
+	e := c14NewEnv(nil, "hash+snap")
+	defer e.close()
+	rules := vRuleByName("cancun").r
+	a, k := vAddrs[0], vSlots[1]
+	commit := func(parent common.Hash, n uint64, f func(s *StateDB)) common.Hash {
+		s, err := New(parent, e.db.sdb)
+		if err != nil {
+			t.Fatalf("VERIF-HARNESS-BUG: open %x: %v", parent, err)
+		}
+		f(s)
+		r, err := s.Commit(rules, n)
+		if err != nil {
+			t.Fatalf("VERIF-HARNESS-BUG: commit block %d: %v", n, err)
+		}
+		return r
+	}
+	r1 := commit(types.EmptyRootHash, 1, func(s *StateDB) { s.SetNonce(a, 1, tracing.NonceChangeUnspecified) })
+	r2 := commit(r1, 2, func(s *StateDB) { s.SetState(a, k, vVals[1]) })
+	held, err := New(r2, e.db.sdb) // opened, nothing read yet
+	if err != nil {
+		t.Fatalf("VERIF-HARNESS-BUG: open %x: %v", r2, err)
+	}
+	r3 := commit(r2, 3, func(s *StateDB) { s.SetState(a, k, vVals[2]) })
+	if err := e.snaps.Cap(r3, 0); err != nil {
+		t.Fatalf("VERIF-HARNESS-BUG: Cap: %v", err)
+	}
+	got := held.GetState(a, k)
+	msg := fmt.Sprintf("state opened at block 2 (slot=%x), read after block 3 (slot=%x) and snapshot Cap(head,0): GetState=%x Error()=%v",
+		vVals[1], vVals[2], got, held.Error())
+	t.Log(msg)
+	if got != vVals[1] && held.Error() == nil && os.Getenv("VERIF_C14_REPRO") == "held" {
+		t.Fatalf("held state silently reads another state's value: %s", msg)
 	}
 }
